@@ -31,9 +31,8 @@ Proved for the continuous conveyor, for EVERY operation / kernel-event sequence 
   was never stopped (`cbelt_exact_when_never_stopped`); the clock cannot pass a pending travel timer (`cbelt_clock`).
 NOT proved for the continuous conveyor (decided only by the lock-step check and the judge rules `order`, `spacing`,
   `exit-order`): arrival at the exit in entry order, spacing of successive entries.  Stated here so that the gap is visible.
-Domain of the model: every item has the conveyor's item length; an object is put only while it is not on the belt; no
-API call between a put and the Initialize of its move process; histories in which `_get_belt_pattern` raises are cut
-there (`gaveUp`; none in the sampled histories after the repairs).
+Domain of the model: every item has the conveyor's item length; an object is put only while it is not on the belt;
+histories in which `_get_belt_pattern` raises are cut there (`gaveUp`; none in the sampled histories after the repairs).
 -/
 import FsVerif.Proofs.SlotBelt3
 import FsVerif.Proofs.CBeltTime6
